@@ -60,7 +60,7 @@ _OutT = TypeVar("_OutT")
 
 def _cache_when_possible(fn: Callable[_P, _OutT]) -> Callable[_P, _OutT]:
     """Makes `fn` behave like `functools.cache(fn)` when args are all hashable, else no change."""
-    cached_fn = lru_cache(maxsize=None)(fn)
+    cached_fn = lru_cache(maxsize=None, typed=True)(fn)
 
     def _all_hashable(args: tuple, kwargs: dict) -> bool:
         return all(isinstance(arg, Hashable) for arg in args) and all(
